@@ -9,6 +9,9 @@ fn data(rng: &mut Rng, n: usize, text: bool) -> Vec<u8> {
             let l: &[u8] = *rng.pick::<&[u8]>(&[
                 b"--- a/file", b"+++ b/file", b"$NetBSD: patch-aa,v 1.1 2024/01/01 00:00:00 x Exp $", b"$NetBSD$",
                 b"context $NetBS", b"x$NetBSDy", b"", b"@@ -1,2 +1,2 @@", b"-old", b"+new", b"$NetBSD", b"NetBSD$",
+                // other '$' before the marker on the same line, doubled '$', near misses that restart
+                b"+.if ${FOO} > 5.4 # $NetBSD$", b"$Id$ $NetBSD: x $", b"$$NetBSD: Makefile,v 1.2 $$", b"$Net$NetBSD",
+                b"$NetBS$NetBSD", b"$$", b"$N$Ne$Net$NetB$NetBS", b"$NETBSD$", b"$ NetBSD",
             ]);
             out.extend(l);
             out.push(b'\n');
@@ -40,10 +43,11 @@ fn schedule(rng: &mut Rng, len: usize) -> String {
         4 => "i,i,i".into(),
         5 => {
             // a hard error: first / middle / after everything
+            let kind = *rng.pick(&["e", "eu", "ew", "et", "ep", "ed", "en"]);
             match rng.below(3) {
-                0 => "e".into(),
-                1 => format!("{},e", rng.range(1, len.max(1))),
-                _ => format!("{},i,e", len + 10),
+                0 => kind.into(),
+                1 => format!("{},{}", rng.range(1, len.max(1)), kind),
+                _ => format!("{},i,{}", len + 10, kind),
             }
         }
         6 => format!("{},{}", len / 2 + 1, 1),
@@ -85,6 +89,8 @@ fn gen_c13(tier: &str, rng: &mut Rng, emit: &mut dyn FnMut(Op)) {
             (&b"abc\n$NetBSD$\ndef\n"[..], "5"), (b"abc\n$NetBSD$\ndef\n", "4,3,1"), (b"abc\n$NetBSD$\ndef", "7"),
             (b"$NetBSD", ""), (b"$NetBS\nD", "3"), (b"no newline $NetBSD$", "2,2,2"), (b"\n", ""), (b"\n\n", "1"),
             (b"a\n", "1,1"), (b"a", "1"), (b"x\r\n$NetBSD$\r\n", "3"),
+            (b"a ${X} $NetBSD$\nb\n", "4"), (b"$$NetBSD$$\nkeep\n", ""), (b"$Net$NetBSD\nkeep\n", "2,2"),
+            (b"data", "eu"), (b"data", "2,eu"), (b"data", "9,eu"), (b"", "eu"),
         ] {
             for mode in ["f", "p"] {
                 emit(Op::new("digest.hash", &[alg.to_string().as_bytes(), mode.as_bytes(), s.as_bytes(), d]));
